@@ -349,21 +349,80 @@ def shrink(prop, tape_values, spans, key, budget_s=45.0, max_exec=1500):
     return best, execs[0]
 
 
-def write_replay(pid, seed, n, tier, tape, key, msg, prop):
+def _run_history(prop, history):
+    """Execute the runs that preceded the recorded one in its process (outcomes
+    ignored): only needed when the code under test carries state from one run
+    to the next (class attributes, module globals, mutable defaults)."""
+    for h in history or []:
+        if "tape" in h:
+            run_one(prop, replay=h["tape"])
+        else:
+            run_one(prop, tuple(h["prefix"]), h["seed"])
+
+
+def exec_doc(pid, path):
+    """Child side of fresh_exec: run history + tape in this (fresh) process and
+    print the outcome as one JSON line."""
+    prop = load_prop(pid)
+    with open(path) as f:
+        doc = json.load(f)
+    PARAMS["tier"] = doc.get("tier", "quick")
+    _run_history(prop, doc.get("process_history"))
+    out = run_one(prop, replay=doc["tape"], trace=True)
+    print("EXEC-RESULT " + json.dumps({
+        "kind": out.kind, "key": out.key, "msg": out.msg, "digest": out.digest,
+        "labels": [[l, m] for (l, m) in (out.ctx.tape.labels or [])][:2000],
+        "trace": (out.ctx.trace or [])[-400:]}, default=repr))
+    return 0
+
+
+def fresh_exec(pid, tier, tape, history=None, timeout=600):
+    """Execute (history +) tape in a fresh interpreter; returns the outcome dict
+    or None when the child failed."""
+    import subprocess
+    import tempfile
     os.makedirs(REPLAY_DIR, exist_ok=True)
-    out = run_one(prop, replay=tape, trace=True)
+    fd, tmp = tempfile.mkstemp(prefix=".exec-", suffix=".json", dir=REPLAY_DIR)
+    try:
+        with os.fdopen(fd, "w") as f:
+            json.dump({"tier": tier, "tape": list(tape), "process_history": history or []}, f)
+        check = os.path.join(os.path.dirname(os.path.dirname(os.path.abspath(__file__))), "check")
+        try:
+            cp = subprocess.run([sys.executable, check, pid, "--exec-doc", tmp], capture_output=True, text=True, timeout=timeout)
+        except subprocess.TimeoutExpired:
+            return None
+        for line in cp.stdout.splitlines():
+            if line.startswith("EXEC-RESULT "):
+                return json.loads(line[len("EXEC-RESULT "):])
+        return None
+    finally:
+        try:
+            os.unlink(tmp)
+        except OSError:
+            pass
+
+
+def write_replay(pid, seed, n, tier, tape, key, msg, prop, history=None, fresh=None):
+    os.makedirs(REPLAY_DIR, exist_ok=True)
     path = os.path.join(REPLAY_DIR, "%s-%d-%d.json" % (pid, seed, n))
+    if fresh is None:
+        fresh = fresh_exec(pid, tier, tape, history)
+    if fresh is None:       # no child result: fall back to this process
+        out = run_one(prop, replay=tape, trace=True)
+        fresh = {"kind": out.kind, "key": out.key, "msg": out.msg, "digest": out.digest,
+                 "labels": [[l, m] for (l, m) in (out.ctx.tape.labels or [])][:2000], "trace": (out.ctx.trace or [])[-400:]}
     doc = {
         "property": pid, "seed": seed, "tier": tier, "tape": list(tape),
-        "class_key": key, "message": out.msg if out.kind == "violation" else msg,
-        "reproduced": out.kind == "violation" and out.key == key,
-        "digest": out.digest,
-        "labels": [[l, m] for (l, m) in (out.ctx.tape.labels or [])][:2000],
-        "trace": out.ctx.trace[-400:] if out.ctx.trace else [],
+        "process_history": history or [],
+        "class_key": key, "message": fresh["msg"] if fresh["kind"] == "violation" else msg,
+        "reproduced": fresh["kind"] == "violation" and fresh["key"] == key,
+        "digest": fresh["digest"],
+        "labels": fresh["labels"],
+        "trace": fresh["trace"],
     }
     with open(path, "w") as f:
         json.dump(doc, f, indent=1, default=repr)
-    return path
+    return path, doc["reproduced"]
 
 
 def replay_file(pid, path):
@@ -371,6 +430,9 @@ def replay_file(pid, path):
     with open(path) as f:
         doc = json.load(f)
     PARAMS["tier"] = doc.get("tier", "quick")
+    if doc.get("process_history"):
+        print("re-executing the %d run(s) that preceded the recorded one in its process" % len(doc["process_history"]))
+        _run_history(prop, doc["process_history"])
     out = run_one(prop, replay=doc["tape"], trace=True)
     if out.kind == "violation":
         same = out.key == doc.get("class_key") and out.digest == doc.get("digest")
@@ -391,6 +453,31 @@ def replay_file(pid, path):
         return 2
     print("replay did not reproduce a violation (digest=%s, recorded %s)" % (out.digest, doc.get("digest")))
     return 0
+
+
+def find_history(pid, tier, seed, nw, index, tape, key, enum, budget_s=120.0):
+    """The violation of job `index` does not reproduce in a fresh process: the
+    code under test carried state over from earlier runs of the same worker.
+    Look for a short process history after which it does: the run itself
+    repeated, then the last 1, 2, 4, ... jobs of that worker."""
+    t0 = time.time()
+    cands = [[{"tape": list(tape)}]]
+    wid = index % nw
+    before = list(range(wid, index, nw))
+    k = 1
+    while before:
+        part = before[-k:]
+        cands.append([{"prefix": list(job_at(pid, seed, enum, j)[1]), "seed": job_at(pid, seed, enum, j)[2]} for j in part])
+        if k >= len(before):
+            break
+        k *= 4
+    for hist in cands:
+        if time.time() - t0 > budget_s:
+            break
+        r = fresh_exec(pid, tier, tape, hist, timeout=max(30, budget_s))
+        if r is not None and r["kind"] == "violation" and r["key"] == key:
+            return hist, r
+    return None, None
 
 
 # ---------------------------------------------------------------------------
@@ -510,15 +597,32 @@ def main_check(pid, tier, seed, budget_s=None):
         if n_rep > 5:
             print("VIOLATION property=%s (further class %s not minimised)" % (pid, key))
             continue
+        history = None
         if "/hang/" in key or "/livelock/" in key:
             small, execs = list(tape), 0          # every re-execution costs 2 x HANG_S
+            path, ok = write_replay(pid, s, index, tier, small, key, msg, prop)
         else:
             out = run_one(prop, replay=tape)
             spans = out.ctx.tape.spans
             small, execs = shrink(prop, tape, spans, key)
-        path = write_replay(pid, s, index, tier, small, key, msg, prop)
+            # the replay file must reproduce in a fresh process
+            fresh = fresh_exec(pid, tier, small)
+            if fresh is not None and not (fresh["kind"] == "violation" and fresh["key"] == key):
+                # not from a clean process: try the unminimised run, then look for the
+                # process history (earlier runs of the same worker) the violation needs
+                small = list(tape)
+                fresh = fresh_exec(pid, tier, small)
+                if fresh is not None and not (fresh["kind"] == "violation" and fresh["key"] == key):
+                    history, fresh2 = find_history(pid, tier, seed, nw, index, small, key, enum)
+                    if history is not None:
+                        fresh = fresh2
+            path, ok = write_replay(pid, s, index, tier, small, key, msg, prop, history, fresh)
         print("violation class %s: %s" % (key, msg))
-        print("  minimised tape %d -> %d entries in %d executions" % (len(tape), len(small), execs))
+        print("  minimised tape %d -> %d entries in %d executions%s" % (len(tape), len(small), execs, "" if not history else
+              "; the violation depends on state the code under test carries over from earlier runs in the same process: the replay file "
+              "re-executes %d preceding run(s) first" % len(history)))
+        if not ok:
+            print("  note: the replay file does not reproduce this class from a clean process (state carried over between runs could not be reconstructed)")
         print("VIOLATION property=%s replay=%s" % (pid, path))
         reported.append(key)
         if rc == 0:
